@@ -163,6 +163,7 @@ func runC09(p *Prog, r *Report) {
 	r.Floor("C09.R5", checkSnapshots(p, r, "C09.R5", nil), 4, "snapshot methods (Clone / Export) in memmetrics")
 	r.Floor("C09.R5", checkNoLiveHandOut(p, r, "C09.R5"), 3, "exported memmetrics methods returning a statistics object")
 	r.Floor("C09.R13", c09NoConfigHeaderAlias(p, r, "C09.R13"), 1, "stores into a request's Header field")
+	r.Floor("C09.R5", checkAppendUsesSnapshot(p, r, "C09.R5"), 1, "RTMetrics methods taking another RTMetrics")
 }
 
 func lockOpsOf(p *Prog, roots []*types.Named) int {
@@ -402,6 +403,7 @@ func modeWord(m string) string {
 
 func mutantsC09() []Mutant {
 	return []Mutant{
+		{Name: "append-merges-live-histogram", File: "memmetrics/roundtrip.go", Old: "\treturn m.histogram.Append(copied.histogram)\n", New: "\treturn m.histogram.Append(other.histogram)\n", Expect: "C09.R5"},
 		{Name: "webhook-aliases-configured-headers", File: "cbreaker/effect.go", Old: "\t\tutils.CopyHeaders(r.Header, w.w.Headers)\n", New: "\t\tr.Header = w.w.Headers\n", Expect: "C09.R13"},
 		{Name: "merged-returns-live-bucket", File: "memmetrics/histogram.go", Old: "func (r *RollingHDRHistogram) Merged() (*HDRHistogram, error) {\n", New: "func (r *RollingHDRHistogram) Merged() (*HDRHistogram, error) {\n\tif len(r.buckets) == 1 {\n\t\treturn r.buckets[0], nil\n\t}\n", Expect: "C09.R5"},
 		{Name: "connlimit-release-unlocked", File: "connlimit/connlimit.go", Old: "func (cl *ConnLimiter) release(token string, amount int64) {\n\tcl.mutex.Lock()\n\tdefer cl.mutex.Unlock()\n", New: "func (cl *ConnLimiter) release(token string, amount int64) {\n", Expect: "C09.R1"},
